@@ -282,7 +282,9 @@ func runC06_3(c *core.Ctx) {
 		fClosed
 		fStored
 		fIngress
+		fAlreadyDown
 	)
+	isShutdownFn := c.P.Func("", "engine.isShutdown")
 	ingress := c.P.Field("", "engine", "ingress")
 	if !c.Need("engine.ingress", ingress) {
 		return
@@ -379,6 +381,9 @@ func runC06_3(c *core.Ctx) {
 				if x, y, op, ok := flow.Cmp(e.Cond); ok && flow.IsNil(f.Info, y) && flow.FieldOf(f.Info, x) == ingress && (op == token.EQL) == e.Sense {
 					in |= fIngress // no main reactor (reuse-port mode)
 				}
+				if call, ok := ast.Unparen(e.Cond).(*ast.CallExpr); ok && isShutdownFn != nil && flow.IsCall(f.Info, call, isShutdownFn) && e.Sense {
+					in |= fAlreadyDown // a repeated stop: nothing to do
+				}
 			}
 			return in
 		}
@@ -392,6 +397,10 @@ func runC06_3(c *core.Ctx) {
 			}
 		})
 		sol.AtExit(func(b *flow.Block, facts uint64) {
+			if facts&fAlreadyDown != 0 {
+				c.Ok(f.Name, "repeated stop returns early", b.Return.Pos(), "already shut down: no step is repeated")
+				return
+			}
 			all := uint64(fSignal | fOnShutdown | fExitTasks | fWaited | fClosed | fStored)
 			c.Check(facts&all == all, f.Name, "complete shutdown sequence", b.Return.Pos(), "every step is performed before returning",
 				"a return of the stop path skips a shutdown step (OnShutdown, exit tasks, Wait, closeEventLoops or inShutdown)")
@@ -509,8 +518,22 @@ func runC06_6(c *core.Ctx) {
 			}
 			return k
 		}})
+		isShutdownFn := c.P.Func("", "engine.isShutdown")
+		dp := &flow.Problem{Must: true}
+		dp.Edge = func(e *flow.Edge, in uint64) uint64 {
+			if e.Cond != nil && e.Tag == nil && e.Sense {
+				if call, ok := ast.Unparen(e.Cond).(*ast.CallExpr); ok && isShutdownFn != nil && flow.IsCall(f.Info, call, isShutdownFn) {
+					in |= 1
+				}
+			}
+			return in
+		}
+		down := g.Solve(dp)
 		cnt.AtExit(func(b *flow.Block, _ uint64) {
 			cs := cnt.Out(b)
+			if down.Out(b)&1 != 0 && cs == flow.Cnt0 {
+				return // repeated stop
+			}
 			c.Check(cs == flow.Cnt1, f.Name, "OnShutdown exactly once", b.Return.Pos(), "exactly one OnShutdown per stop", "OnShutdown runs "+flow.CountSet(cs)+" times on a path of the stop sequence")
 		})
 	}
